@@ -19,6 +19,7 @@ func init() {
 }
 
 func c02Case(g *Gen, c addchain.Chain, tgt *big.Int, tgts []*big.Int) {
+	g.Pending("c02", encInts(c), tgt.String(), encInts(tgts))
 	before := cloneInts(c)
 	// a panic of the code under test is an outcome of the case (reported as a violation with the
 	// sequence as replay), never a crash of the harness
